@@ -789,7 +789,6 @@ func init() {
 	})
 }
 
-
 func isBoolT(t types.Type) bool {
 	b, ok := t.Underlying().(*types.Basic)
 	return ok && b.Kind() == types.Bool
